@@ -218,7 +218,7 @@ func verif_C05_limiter() {
 	verifPreemptBound(0)
 	max := 16
 	run := nondetInt(max-4, max+6) // chunk size: an LF-free run around the limit
-	segMode := verifChoice(4)      // 0 command and chunk in separate segments, 1 one segment, 2 command + all but the last chunk octet, then the rest, 3 command + whole chunk, then the next command
+	segMode := verifChoice(5)      // 0 command and chunk in separate segments, 1 one segment, 2 command + all but the last chunk octet, then the rest, 3 command + whole chunk, then the next command, 4 command + whole chunk + the first two octets of the next command
 	sameSeg := segMode == 1
 	last := nondetBool()
 	payload := make([]byte, run)
@@ -260,6 +260,8 @@ func verif_C05_limiter() {
 		vc.cuts = []int{len(head), cutAt + run - 1, cutAt + run}
 	case 3:
 		vc.cuts = []int{len(head), cutAt + run}
+	case 4:
+		vc.cuts = []int{len(head), cutAt + run + 2}
 	}
 	c := newConn(vc, s)
 	err := s.handleConn(c)
